@@ -74,6 +74,14 @@ def build(rng):
     d5.add_effect(StartTiming(), p(d5.x), True)
     d5.add_effect(EndTiming() - rng.choice([0, 1]), p(d5.x), False)
     acts.append(d5)
+    # d6: fixed duration read from a STATIC fluent of the parameter (its value is known only with the problem at hand)
+    dist = Fluent("dist", RealType(), x=T)
+    pr.add_fluent(dist, default_initial_value=2)
+    pr.set_initial_value(dist(objs[1]), Fraction(7, 2))
+    d6 = DurativeAction("d6", x=T)
+    d6.set_fixed_duration(dist(d6.x))
+    d6.add_effect(EndTiming(), q, True)
+    acts.append(d6)
     i1 = InstantaneousAction("i1", x=T)
     i1.add_precondition(Not(q))
     i1.add_effect(p(i1.x), True)
@@ -90,6 +98,9 @@ def duration_of(a, params, rng=None):
         return None
     subs = dict(zip(a.parameters, params))
     v = a.duration.lower.substitute(subs).simplify()
+    if not v.is_constant() and getattr(duration_of, "problem", None) is not None:      # a static fluent: its initial value
+        from unified_planning.model.walkers import Simplifier
+        v = Simplifier(duration_of.problem.environment, duration_of.problem).simplify(v)
     if a.duration.lower != a.duration.upper:
         return None if rng is None else Fraction(rng.randint(4, 12), 2)
     return Fraction(v.constant_value())
@@ -130,6 +141,7 @@ def as_multiset(timed):
 def scenario(seed, failures, stats):
     rng = random.Random(seed)
     pr, objs = build(rng)
+    duration_of.problem = pr
     label = {"seed": seed}
 
     def bad(what, observed=None):
